@@ -61,8 +61,8 @@ def async_part(chk):
   class Src:
     """Endless (or finite / failing) async source that counts its reads."""
 
-    def __init__(self, n=None, fail_at=0):
-      self.n, self.fail_at, self.reads = n, fail_at, 0
+    def __init__(self, n=None, fail_at=0, idle=False):
+      self.n, self.fail_at, self.reads, self.idle = n, fail_at, 0, idle
 
     def __aiter__(self):
       return self
@@ -70,6 +70,8 @@ def async_part(chk):
     async def __anext__(self):
       self.reads += 1
       await asyncio.sleep(0)
+      if self.idle:
+        await asyncio.Event().wait()        # a producer that is alive but has nothing to deliver
       if self.fail_at and self.reads == self.fail_at:
         raise RuntimeError('async producer fails')
       if self.n is not None and self.reads > self.n:
@@ -78,7 +80,7 @@ def async_part(chk):
 
   async def scenario(kind, cap, turns_before):
     q = iter_utils.AsyncIteratorQueue(cap)
-    srcs = [Src()] if kind != 'other-fails' else [Src(), Src(fail_at=2)]
+    srcs = ([Src(idle=True), Src(fail_at=2)] if kind == 'other-fails-while-idle' else [Src(), Src(fail_at=2)] if kind == 'other-fails' else [Src()])
     tasks = [asyncio.ensure_future(q.async_enqueue_from_iterator(s)) for s in srcs]
     got, seen_exc = [], None
 
@@ -104,6 +106,8 @@ def async_part(chk):
     for _ in range(300):
       if all(t.done() for t in tasks) and (cons is None or cons.done()):
         break
+      if kind == 'other-fails-while-idle' and cons.done():
+        break
       await asyncio.sleep(0.01)
     state = dict(producers_done=[t.done() for t in tasks], consumer_done=cons.done() if cons else True,
                  reads_after=[s.reads - r for s, r in zip(srcs, reads_at_stop)], seen_exc=repr(seen_exc))
@@ -112,7 +116,7 @@ def async_part(chk):
     await asyncio.gather(*tasks, *([cons] if cons else []), return_exceptions=True)
     return state
 
-  for kind in ('stop', 'stop-exc', 'stop-no-consumer', 'other-fails'):
+  for kind in ('stop', 'stop-exc', 'stop-no-consumer', 'other-fails', 'other-fails-while-idle'):
     for cap in (0, 1, 2):
       for turns in (0, 3, 12):
         try:
@@ -125,6 +129,11 @@ def async_part(chk):
         ctx = dict(kind='async-queue', scenario=kind, cap=cap, turns_before=turns, state=st)
         if kind == 'other-fails' and turns == 0:
           pass
+        if kind == 'other-fails-while-idle':
+          # the idle producer cannot return (its source never answers); the consumer, starved, must still see the failure
+          if not st['consumer_done'] or 'Error' not in st['seen_exc']:
+            chk.violation('async:failure-not-observed:other-fails-while-idle', f'[{cfg}] consumer done={st["consumer_done"]}, saw {st["seen_exc"]}', ctx)
+          continue
         if not all(st['producers_done']):
           chk.violation(f'async:producer-keeps-running:{kind}', f'[{cfg}] 3 s later a producer task has not returned; it read its source '
                         f'{st["reads_after"]} more times', ctx)
